@@ -60,6 +60,8 @@ async def write(src: StreamWrapper, dst: StreamWrapper, bufsize: int) -> None:
             if isinstance(src, StreamWrapper)
             else src.read(bufsize)
         )
+        if len(buf) == 0:
+            raise tarfile.ReadError("unexpected end of data")
         bufsize -= len(buf)
         await dst.write(buf) if isinstance(dst, StreamWrapper) else dst.write(buf)
 
@@ -324,8 +326,8 @@ class SeekableStreamReaderWrapper(TellableStreamWrapper):
 
     async def seek(self, offset: int) -> None:
         if offset > self.position:
-            await self.stream.read(offset - self.position)
-            self.position = offset
+            # The underlying stream can return less bytes than requested
+            await self.read(offset - self.position)
         elif offset < self.position:
             raise tarfile.ReadError("Cannot seek backward with streams")
 
